@@ -56,9 +56,38 @@ def r1_len_accounting(ctx):
     if not qlen:
         return
     lenf = returned_field(qlen)
-    if not ctx.check(lenf is not None, 'len-getter', 'CQueue::len returns a stored counter field', qlen.where(),
+    # sum form: len() = <length of the zero-delay container> + <stored counter (possibly through a getter)>
+    for _, t_ in ret_trees(qlen):
+        t_ = peel(t_)
+        if t_[0] == 'field' and peel(t_[1])[0] == 'bin':
+            t_ = peel(t_[1])
+        if t_[0] == 'bin' and t_[1].startswith('Add'):
+            for opnd in (peel(t_[2]), peel(t_[3])):
+                if opnd[0] == 'field' and not str(opnd[2]).isdigit():
+                    lenf = opnd[2]
+                elif opnd[0] == 'call' and opnd[1].startswith(Q + '::') and P.fns.get(opnd[1]) is not None:
+                    rf_ = returned_field(P.fns[opnd[1]])
+                    if rf_ is not None and not str(rf_).isdigit():
+                        lenf = rf_
+    if not ctx.check(lenf is not None and not str(lenf).isdigit(), 'len-getter', 'CQueue::len returns a stored counter field', qlen.where(),
                      'field: %s' % lenf):
         return
+    # what the stored counter counts: everything (len() returns it), or the bucket entries only (len() = the zero-delay container's
+    # own length + the counter; the container then counts for itself)
+    def _mentions_zero_len(t, depth=2):
+        for x in walk(t):
+            if x[0] == 'call' and x[1].endswith(('VecDeque::len', 'Vec::len')):
+                return True
+            if x[0] == 'call' and depth > 0 and x[1].startswith(Q + '::') and P.fns.get(x[1]) is not None and x[1] != Q + '::len':
+                if any(_mentions_zero_len(t2, depth - 1) for _, t2 in ret_trees(P.fns[x[1]])):
+                    return True
+        return False
+    buckets_only = any(_mentions_zero_len(t) and (peel(t)[0] == 'bin' or (peel(t)[0] == 'field' and peel(peel(t)[1])[0] == 'bin')) for _, t in ret_trees(qlen))
+    INS_Z = () if buckets_only else INSERT_Z
+    EXT_Z = () if buckets_only else EXTRACT_Z
+    REM_Z = () if buckets_only else REMOVE_Z
+    if buckets_only:
+        ctx.ok('CQueue::len = length of the zero-delay container + stored counter: the counter is paired with bucket operations only', qlen.where())
     # --- CQueue::add
     f = ctx.anchor(Q + '::add')
     n = 0
@@ -69,7 +98,11 @@ def r1_len_accounting(ctx):
         effs = path_effects(f, path)
         inc = _count(effs, lambda e: e[0] == 'w' and e[1] == 'inc' and e[2] == lenf)
         dec = _count(effs, lambda e: e[0] == 'w' and e[1] in ('dec', 'set') and e[2] == lenf)
-        ins = _count(effs, lambda e: _is_call(e, L + '::add', *INSERT_Z))
+        ins = _count(effs, lambda e: _is_call(e, L + '::add', *INS_Z))
+        if buckets_only:
+            ctx.check(inc == ins and dec == 0 and _count(effs, lambda e: _is_call(e, L + '::add', *INSERT_Z)) == 1, 'add:path-imbalance',
+                      'CQueue::add: a returning path performs %d bucket insertion(s) but %d increment(s) of %s' % (ins, inc, lenf), f.where_path(path))
+            continue
         ctx.check(inc == 1 and dec == 0 and ins == 1, 'add:path-imbalance',
                   'CQueue::add: a returning path performs %d insertion(s) but %d increment(s) of %s' % (ins, inc, lenf),
                   f.where_path(path), 'path blocks %s' % (list(path),))
@@ -87,9 +120,15 @@ def r1_len_accounting(ctx):
         other = _count(effs, lambda e: e[0] == 'w' and e[1] in ('inc', 'set') and e[2] == lenf)
         # (a pop_min whose result this path found to be None extracted nothing: `if let Some(..) = list.pop_min_until(t1)` retried later)
         ext = sum(1 for _, r in call_outcomes(f, path, decs, L + '::pop_min') if r != 'None')
+        zext = 0
         for zn in EXTRACT_Z:
             if any(_is_call(e, zn) for e in effs) and _atoms_say(atoms, zn, variant='Some'):
-                ext += 1
+                zext += 1
+        if buckets_only:
+            ctx.check(dec == ext and other == 0 and ext + zext == 1, 'fetch_next:path-imbalance',
+                      'CQueue::fetch_next: a returning path extracts %d bucket element(s) but decrements %s %d time(s)' % (ext, lenf, dec), f.where_path(path))
+            continue
+        ext += zext
         ctx.check(dec == 1 and other == 0 and ext == 1, 'fetch_next:path-imbalance',
                   'CQueue::fetch_next: a returning path extracts %d element(s) but decrements %s %d time(s)' % (ext, lenf, dec),
                   f.where_path(path), 'path blocks %s' % (list(path),))
@@ -105,7 +144,7 @@ def r1_len_accounting(ctx):
         atoms = path_atoms(f, path, decs)
         dec = _count(effs, lambda e: e[0] == 'w' and e[1] == 'dec' and e[2] == lenf)
         other = _count(effs, lambda e: e[0] == 'w' and e[1] in ('inc', 'set') and e[2] == lenf)
-        rem = _count(effs, lambda e: _is_call(e, *REMOVE_Z))
+        rem = _count(effs, lambda e: _is_call(e, *REM_Z)) if REM_Z else 0
         if any(_is_call(e, L + '::cancel') for e in effs) and _atoms_say(atoms, L + '::cancel', truth=True):
             rem += 1
         ctx.check(dec == rem and other == 0, 'cancel:path-imbalance',
